@@ -158,7 +158,7 @@ pub fn list_tree(root: &Path) -> Vec<String> {
     out
 }
 
-fn event_sx(e: &StoreEvent) -> Sx {
+pub fn event_sx(e: &StoreEvent) -> Sx {
     match e {
         StoreEvent::AddWalSegment { id } => Sx::l(vec![Sx::a("add_wal"), Sx::int(*id)]),
         StoreEvent::RegisterWalSegment { id } => Sx::l(vec![Sx::a("reg_wal"), Sx::int(*id)]),
